@@ -107,6 +107,9 @@ func (r *runningRoutine[K, V]) execute(
 		select {
 		case <-ctx.Done():
 			err = context.Canceled
+			// canceled before starting: still wait for the previous instance to
+			// exit before closing exitedCh, the next instance waits on it.
+			<-waitCh
 		case <-waitCh:
 		}
 	} else if err = ctx.Err(); err != nil {
